@@ -43,6 +43,7 @@
 #include <unifex/dematerialize.hpp>
 #include <unifex/done_as_optional.hpp>
 #include <unifex/finally.hpp>
+#include <unifex/get_allocator.hpp>
 #include <unifex/inplace_stop_token.hpp>
 #include <unifex/just.hpp>
 #include <unifex/just_done.hpp>
@@ -92,6 +93,30 @@ void* operator new(std::size_t n) { ++g_live; void* p = std::malloc(n ? n : 1); 
 void operator delete(void* p) noexcept { if (p) { --g_live; std::free(p); } }
 void operator delete(void* p, std::size_t) noexcept { if (p) { --g_live; std::free(p); } }
 
+// ---------------------------------------------------------------- counting allocator (C12: get_allocator reaches every child)
+// The root receiver answers get_allocator with CountAlloc{id 5}.  Every leaf must see id 5, and whatever the library
+// allocates through a receiver's allocator (allocate()) must come from id 5.  select_on_container_copy_construction
+// deliberately returns a DIFFERENT allocator (id 0), as std::pmr::polymorphic_allocator does: an allocator obtained
+// that way is not "the allocator visible through the receiver".
+static long g_alloc_by_root = 0, g_alloc_foreign = 0, g_alloc_live = 0;
+template <typename T>
+struct CountAlloc {
+  using value_type = T;
+  int id = 0;
+  CountAlloc() = default;
+  explicit CountAlloc(int i) noexcept : id(i) {}
+  template <typename U> CountAlloc(const CountAlloc<U>& o) noexcept : id(o.id) {}
+  T* allocate(std::size_t n) {
+    if (id == 5) ++g_alloc_by_root; else ++g_alloc_foreign;
+    ++g_alloc_live;
+    return static_cast<T*>(::operator new(n * sizeof(T)));
+  }
+  void deallocate(T* p, std::size_t) noexcept { --g_alloc_live; ::operator delete(p); }
+  CountAlloc select_on_container_copy_construction() const noexcept { return CountAlloc{0}; }
+  template <typename U> bool operator==(const CountAlloc<U>& o) const noexcept { return id == o.id; }
+  template <typename U> bool operator!=(const CountAlloc<U>& o) const noexcept { return id != o.id; }
+};
+
 // ---------------------------------------------------------------- custom receiver query
 inline constexpr struct get_tag_fn {
   template <typename R>
@@ -100,8 +125,10 @@ inline constexpr struct get_tag_fn {
   }
 } get_tag{};
 
-using Any = with_receiver_queries<overload<int(const this_&) noexcept>(get_tag)>::any_sender_of<int>;
-using AnyVoid = with_receiver_queries<overload<int(const this_&) noexcept>(get_tag)>::any_sender_of<>;
+using Any = with_receiver_queries<overload<int(const this_&) noexcept>(get_tag),
+                                  overload<CountAlloc<std::byte>(const this_&) noexcept>(get_allocator)>::any_sender_of<int>;
+using AnyVoid = with_receiver_queries<overload<int(const this_&) noexcept>(get_tag),
+                                      overload<CountAlloc<std::byte>(const this_&) noexcept>(get_allocator)>::any_sender_of<>;
 
 struct Err { int code; };
 
@@ -183,6 +210,7 @@ struct LeafSender {
 //C20{
       as_probe(w, "leaf" + std::to_string(id), std::as_const(r));
 //C20}
+      { CountAlloc<std::byte> a = get_allocator(std::as_const(r)); if (a.id != 5) w->emit("!!alloc-query-lost=" + std::to_string(a.id)); }
       if (sp.inline_) { deliver(sp.chan, sp.val); return; }
       w->running[id] = this;
       inCtor = true;
@@ -263,6 +291,7 @@ struct Retok {
     void set_done() && noexcept { check(); unifex::set_done(std::move(*r)); }
     friend CountTok tag_invoke(tag_t<get_stop_token>, const Rcv& x) noexcept { return CountTok{get_stop_token(*x.r), x.n}; }
     friend int tag_invoke(get_tag_fn, const Rcv& x) noexcept { return get_tag(std::as_const(*x.r)); }
+    friend CountAlloc<std::byte> tag_invoke(tag_t<get_allocator>, const Rcv& x) noexcept { return get_allocator(std::as_const(*x.r)); }
   };
   template <typename R>
   struct Op {
@@ -438,6 +467,7 @@ struct RootReceiver {
   void set_done() noexcept { record("R=d"); }
   friend inplace_stop_token tag_invoke(tag_t<get_stop_token>, const RootReceiver& r) noexcept { return r.src->get_token(); }
   friend int tag_invoke(get_tag_fn, const RootReceiver&) noexcept { return 7; }
+  friend CountAlloc<std::byte> tag_invoke(tag_t<get_allocator>, const RootReceiver&) noexcept { return CountAlloc<std::byte>{5}; }
 };
 
 static std::string flush(World& w) {
@@ -462,6 +492,7 @@ static std::string run_case(const std::string& line) {
   auto parts = split(line, '|');
   if (parts.size() < 4) return "bad-op";
   std::string id = trim(parts[0]);
+  g_alloc_by_root = g_alloc_foreign = g_alloc_live = 0;
   World w;
   {
     std::stringstream ss(parts[2]); std::string tok;
@@ -517,6 +548,8 @@ static std::string run_case(const std::string& line) {
 //C20}
     if (w.started && w.rootCompletions != 1) res += " | !!root-completions=" + std::to_string(w.rootCompletions);
   }
+  if (g_alloc_foreign != 0) res += " | !!alloc-foreign=" + std::to_string(g_alloc_foreign);
+  if (g_alloc_live != 0) res += " | !!alloc-live=" + std::to_string(g_alloc_live);
   // The operation state is destroyed now.  A stop request AFTER that must not reach anything: a stop
   // callback that an operation left registered on its receiver's token would now run on freed memory
   // (C04: every callback is deregistered before the receiver is completed) - ASan reports it.
